@@ -326,8 +326,11 @@ def handle (line : String) : String :=
                    | k :: ks, l => l.take k :: split ks (l.drop k)
                  let tComps := split (nats lens) (nats flat)
                  if !ChythonModel.Model.Iso.checkComponents (molIsoGraph m) tComps then "error components" else
+                 -- the hypotheses of `Props/C08.lean: pattern_match_is_documented`, checked on every executed case
+                 if !(m.WF && (molIsoGraph m).WF && m.atoms.all fun p => 1 ≤ p.2.z && p.2.z ≤ 118) then "error molecule-wf" else
                  (match smartsFull (nats cps) [] with
                   | .ok g =>
+                    if !(qIsoGraph g).WF then "error query-wf" else
                     if hasStereo g then "stereo" else
                     (match patternMapping g m rings tComps with
                      | some r => "ok " ++ " ; ".intercalate (r.map fun d => showNats (imagesInQueryOrder g d))
